@@ -19,7 +19,7 @@ Reset == /\ IsEvent("Reset")
 
 Logged == [op |-> E.ev, owner |-> E.owner, delivered |-> E.res.delivered, path |-> E.res.path, at |-> E.res.at, ok |-> E.res.ok]
 
-SDown == IsEvent("Down") /\ Down /\ last' = Logged
+SDown == IsEvent("Down") /\ Down(E.kind) /\ last' = Logged
 SUp   == IsEvent("Up") /\ Up(E.owner) /\ last' = Logged
 MonStep == /\ l <= Len(TraceLog) /\ E.ev # "Reset" /\ l' = l + 1
            /\ last' = Logged /\ UNCHANGED <<chain, cls, hist>>
